@@ -157,8 +157,16 @@ extern "C" void harness()
 #elif CLASS == 1
 // ----------------------------------------------------------------------------------------------- event queue
 struct QCb { uint32_t id; explicit QCb(uint32_t i) : id(i) {} void operator()(const TPay & p) const { if(p.magic != 0xFA1u) ++g_bad; g_tr.add(id, p.v, 0); fault_point(2); } };
+#ifdef HETERQ
+// the heterogeneous queue keeps its events in type-erased slots (BufferedUnion) with their own construction / destruction bookkeeping
+struct Pol { using Threading = VMutexOnlyThreading; };
+using Q = eventpp::HeterEventQueue<int, eventpp::HeterTuple<void(const TPay &), void(uint32_t)>, Pol>;
+#define NQOPS 4
+#else
 struct Pol { using Threading = VMutexOnlyThreading; using Callback = QCb; };
 using Q = eventpp::EventQueue<int, void(const TPay &), Pol>;
+#define NQOPS 6
+#endif
 extern "C" void harness()
 {
 	Q * q = new Q();
@@ -168,7 +176,7 @@ extern "C" void harness()
 	for(int i = 0; i < n0; i++) { q->enqueue(1, TPay(100u + (uint32_t)i)); pend[np++] = 100u + (uint32_t)i; }
 	if(n0 >= 1 && vf_choose(2)) { q->processOne(); for(int i = 1; i < np; i++) pend[i - 1] = pend[i]; np--; }    // a recycled slot
 	vf_assert(g_live_pay == np, 430);
-	unsigned op = vf_choose(6);
+	unsigned op = vf_choose(NQOPS);
 	if(op == 0) {                               // enqueue: strong guarantee
 		bool failed = with_faults([&]() { q->enqueue(1, TPay(200u)); });
 		if(! failed) pend[np++] = 200u; else vf_cover(COV_STRONG_OP_FAILED);
@@ -191,6 +199,7 @@ extern "C" void harness()
 		if(failed) { np = 0; vf_cover(COV_FAULT_IN_PROCESS); }         // the batch the call had taken is discarded
 		else { int k = 0; for(int i = 0; i < np; i++) if((pend[i] & 1u) != 0) pend[k++] = pend[i]; np = k; }
 	}
+#ifndef HETERQ
 	else if(op == 4) {                          // peekEvent copies the payload: strong guarantee
 		Q::QueuedEvent qe;
 		bool r = false;
@@ -205,6 +214,7 @@ extern "C" void harness()
 		if(failed) { if(np > 0) { for(int i = 1; i < np; i++) pend[i - 1] = pend[i]; np--; } }   // the event had been taken out
 		else if(r) { vf_assert(std::get<0>(qe.arguments).v == pend[0], 436); for(int i = 1; i < np; i++) pend[i - 1] = pend[i]; np--; }
 	}
+#endif
 	// emptiness reporting stays correct, nothing leaked, the queue stays fully usable
 	vf_assert(q->emptyQueue() == (np == 0), 440);
 	vf_assert(g_live_pay == np, 441);
